@@ -125,6 +125,53 @@ def gen_frag_requests(tier, seed):
     return reqs
 
 
+def gen_batch_requests(tier, seed):
+    """value semantics of the codec entry points: batches of calls whose results are kept (not
+    copied) by the caller and compared only after the whole batch; sequential call-by-call (par 0),
+    item-by-item (par 1) and from several goroutines (par >= 2); arguments compared before/after."""
+    rnd = random.Random(seed ^ 0xBA7C)
+    thorough = tier == "thorough"
+    reqs = []
+
+    def hdr():
+        k = rnd.random()
+        typ = rnd.randrange(1024) if k < 0.8 else rnd.choice([0, 1, 899, 900, 950, 999, 1000, 1023, 1024, 2047, 65535])
+        ln = rnd.choice(ENC_LENS) if rnd.random() < 0.3 else rnd.getrandbits(rnd.choice([4, 16, 32]))
+        return "%d:%d:%d:%d" % (rnd.randrange(8), typ, ln, rnd.choice(FIXED_IDS + [rnd.getrandbits(32)]))
+
+    def buf():
+        k = rnd.random()
+        n = 10 if k < 0.75 else rnd.choice([0, 3, 9, 11, 16])
+        b = [rnd.getrandbits(8) for _ in range(n)]
+        if n >= 6 and rnd.random() < 0.8:
+            b[2:6] = be32(rnd.choice(DEC_LENS + [10, 10, 20, 1000]))
+        return bytes(b).hex() or "-"
+
+    # small sequential batches first (a failure is then reported with a minimal witness):
+    # all ordered pairs of a few distinct headers, then growing sizes
+    base = ["1:62:0:1", "2:1023:655360:4294967295", "0:1:4294967285:2147483648", "7:899:1:0", "1:950:0:5"]
+    for par in (0, 1):
+        for a in base:
+            for b in base:
+                reqs.append("bat enc %d %s;%s" % (par, a, b))
+    bb = ["043e0000000a00000001", "1bff000a000affffffff", "e4010000000980000000", "043e00", "ffff00000014000000050102"]
+    for par in (0, 1):
+        for a in bb:
+            for b in bb:
+                reqs.append("bat dec %d %s;%s" % (par, a, b))
+    sizes = [3, 4, 8, 16, 64, 256] * (6 if thorough else 2)
+    for n in sizes:
+        for par in (0, 1):
+            reqs.append("bat enc %d %s" % (par, ";".join(hdr() for _ in range(n))))
+            reqs.append("bat dec %d %s" % (par, ";".join(buf() for _ in range(n))))
+    for par in (2, 4, 8, 16):
+        for _ in range(12 if thorough else 4):
+            n = rnd.choice([64, 256, 1024])
+            reqs.append("bat enc %d %s" % (par, ";".join(hdr() for _ in range(n))))
+            reqs.append("bat dec %d %s" % (par, ";".join(buf() for _ in range(n))))
+    return reqs
+
+
 def gen_requests(tier, seed):
     rnd = random.Random(seed)
     thorough = tier == "thorough"
@@ -178,6 +225,15 @@ def expand(req):
                 for l in map(int, f[2].split(",")) for i in map(int, f[3].split(","))]
     if f[0] == "raw":
         return [dict(kind="dec", bytes=list(bytes.fromhex("" if f[1] == "-" else f[1])))]
+    if f[0] == "bat" and f[1] == "enc":
+        out = []
+        for k, it in enumerate(f[3].split(";")):
+            v, t, l, i = map(int, it.split(":"))
+            out.append(dict(kind="enc", ver=v, typ=t, len=l, id=i, batch=req, index=k))
+        return out
+    if f[0] == "bat":
+        return [dict(kind="dec", bytes=list(bytes.fromhex("" if h == "-" else h)), batch=req, index=k)
+                for k, h in enumerate(f[3].split(";"))]
     if f[0] == "frg":
         w = int(f[1])
         return [dict(kind="rfg", via="rfg", bytes=[w >> 8, w & 255] + be32(l) + be32(i), pats=f[4].split(","), consumed=False)
@@ -192,6 +248,8 @@ def expand(req):
 
 
 def single_request(case):
+    if case.get("batch"):
+        return case["batch"]
     if case["kind"] == "rfg":
         return "%s %s %s" % (case["via"], bytes(case["bytes"]).hex() or "-", ",".join(case["pats"]))
     if case["kind"] == "dec":
@@ -200,6 +258,26 @@ def single_request(case):
 
 
 def judge_case(case, g, o):
+    """batch members: the kept result of call number [index] of the batch is judged like a single
+    call (the property does not depend on what else was encoded or decoded meanwhile)"""
+    if not case.get("batch"):
+        return judge_single(case, g, o)
+    f = case["batch"].split(" ", 3)
+    n, par = f[3].count(";") + 1, int(f[2])
+    how = {0: "sequentially, call by call", 1: "sequentially, item by item"}.get(par, "from %d goroutines" % par)
+    ctx = "item %d of a batch of %d %s calls made %s, results kept by the caller and read after the batch: " % (
+        case["index"], n, "encode" if f[1] == "enc" else "decode", how)
+    if g.endswith("!in"):
+        return ("argument-mutated:" + ("encode" if f[1] == "enc" else "decode"),
+                ctx + "the %s passed in was changed by the call (%s)" % ("Header" if f[1] == "enc" else "buffer", g), True)
+    single = dict((k, v) for k, v in case.items() if k not in ("batch", "index"))
+    sig, what, found = judge_single(single, g, o)
+    if found:
+        sig = "retained-result:" + sig
+    return (sig, ctx + what, found)
+
+
+def judge_single(case, g, o):
     """Go token g differs from model token o for this case: is the property violated by Go's
     behaviour?  returns (signature, what, found_input)"""
     if case["kind"] == "rfg":
@@ -445,6 +523,7 @@ def run(tier, seed, replay=None):
         "encoding/binary.BigEndian Uint16/Uint32/PutUint16/PutUint32 as in their source (lor of shifted bytes / byte(v>>k)); io.ReadFull delivers exactly 10 bytes or an error",
         "spec/llrp_pairs.json = Coq llrp_pairs (proved equal each run): the pinned LLRP 1.1 list of requests that have a response (19 X / X_RESPONSE pairs); KEEPALIVE/KEEPALIVE_ACK and CUSTOM_MESSAGE are allowed but not demanded",
         "the table dump is produced by the harness from the running code (IsValid, Converse, NewInstance().Type(), isResponseTo for all 1024 codes); the text of generated Coq files is written by checks/c19.py",
+        "batches: the harness keeps what the entry points return without copying and reads it after the batch; goroutine interleavings are whatever the Go scheduler produces in that run (Gosched between calls), not enumerated",
         "fragmented delivery: a net.Conn whose Read returns at most the rest of the current piece (io.Reader contract; empty pieces are skipped on the Go side), modelled by read_full over a list of chunks; net.Pipe hands each Write to separate Reads",
         "the Header version field (uint8) is not refused by the encoder when above 7; the property does not demand it (Example C19_note_version_unchecked)",
     ]
@@ -470,9 +549,9 @@ def run(tier, seed, replay=None):
     if do_tables and stats is None:
         return res.finish()
     if reqs is None:
-        reqs = gen_requests(tier, seed) + gen_frag_requests(tier, seed)
+        reqs = gen_requests(tier, seed) + gen_batch_requests(tier, seed) + gen_frag_requests(tier, seed)
 
-    evals = nontriv = frag_headers = 0
+    evals = nontriv = frag_headers = batch_samples = 0
     dist, samples = {}, []
     if reqs:
         text = "\n".join(reqs) + "\n"
@@ -511,7 +590,7 @@ def run(tier, seed, replay=None):
             return res.finish()
         seen_sig, genuine, unexplained, mismatching = set(), [], [], {}
         for req, g, o in zip(reqs, go_lines, olines):
-            kind = req[:3]
+            kind = req[:3] if not req.startswith("bat") else req[:7].replace(" ", "-")
             ntok = g.count(" ") + 1
             if kind in ("frg", "rfg", "pip"):
                 # one evaluation per (header, fragmentation pattern)
@@ -525,8 +604,11 @@ def run(tier, seed, replay=None):
                 evals += ntok
                 dist[kind] = dist.get(kind, 0) + ntok
                 # non-trivial: the header is accepted by the implementation (not "E")
-                nontriv += ntok - (g.count("E|") if kind != "enc" else len(re.findall(r"(?:^| )E", g)))
-            if len(samples) < 11 and (req.startswith(("dec 1086 ", "dec 65535 ", "enc 1 62 ", "enc 7 950 ")) or req.startswith(("raw 043e0000000a0102030", "raw ffff00000009", "frg 1086 ", "rfg 043e0000000a01020304 ", "pip 043e0000 "))):
+                nontriv += ntok - (g.count("E|") if kind not in ("enc", "bat-enc") else len(re.findall(r"(?:^| )E", g)))
+            if kind.startswith("bat") and batch_samples < 2 and ntok in (2, 8):
+                batch_samples += 1
+                samples.append(dict(request=req, go=g[:260], model=o[:260]))
+            if len(samples) < 13 and (req.startswith(("dec 1086 ", "dec 65535 ", "enc 1 62 ", "enc 7 950 ")) or req.startswith(("raw 043e0000000a0102030", "raw ffff00000009", "frg 1086 ", "rfg 043e0000000a01020304 ", "pip 043e0000 "))):
                 samples.append(dict(request=req, go=g[:260], model=o[:260]))
             if g == o:
                 continue
@@ -580,7 +662,10 @@ def run(tier, seed, replay=None):
              "payload lengths %s x ids (through MarshalBinary, WriteTo, writeHeader); fragmented delivery = every header of that grid handed to "
              "readHeader in pieces (frg: rotating selection of the 9 two-piece, 36 three-piece and 6 many-piece cut patterns per first-two-bytes "
              "value, all 51 on a stride; rfg/pip: short, exact and long streams under all 51 patterns, pip over net.Pipe with a read timeout), one "
-             "evaluation per (header, pattern); table cases = the 1024 type codes. "
+             "evaluation per (header, pattern); batches = value semantics of the entry points: 2..1024 calls whose results (MarshalBinary's slice, "
+             "the WriteTo writer, the writeHeader connection, decode targets) are kept, not copied, and read only after the whole batch, made "
+             "call-by-call, item-by-item and from 2..16 goroutines, arguments compared before/after, one returned slice overwritten by the caller, "
+             "one scratch buffer reused for all decodes; one evaluation per batch member; table cases = the 1024 type codes. "
              "All cases of a run are distinct by construction (lists de-duplicated). Non-trivial: a header case that the implementation "
              "accepts (answer is not E), a table code that can be instantiated; counted from the Go answers." % (DEC_LENS, ENC_LENS),
         samples=samples, input_distribution=dist, traces_validated_against_impl=evals,
